@@ -659,3 +659,56 @@ def built_sequence(func: FuncInfo) -> Optional[Built]:
             and not cur.value.keywords and gens):
         return Built(list(strip_cast(inits[0].value).elts), gens, cur.value.args[0])
     return None
+
+
+# ---------------------------------------------------------------------- "for each element of SEQ, in order"
+class OrderedLoop:
+    """A loop that visits the elements of ``seq`` first to last: ``for x in seq`` · ``for i, x in enumerate(seq)`` ·
+    ``for i in range(len(seq))`` · ``i = 0; while i < len(seq): ...; i += 1``.  ``is_element(e)`` says whether expression ``e``
+    denotes the element of the current iteration (the loop variable, or ``seq[i]``)."""
+
+    def __init__(self, node: ast.stmt, seq: ast.expr, var: Optional[str], index: Optional[str]):
+        self.node, self.seq, self.var, self.index = node, seq, var, index
+
+    def is_element(self, e: ast.expr) -> bool:
+        e = strip_cast(e)
+        if self.var is not None and isinstance(e, ast.Name) and e.id == self.var:
+            return True
+        return (self.index is not None and isinstance(e, ast.Subscript) and norm(e.value) == norm(self.seq)
+                and isinstance(e.slice, ast.Name) and e.slice.id == self.index)
+
+
+def ordered_loop(func: FuncInfo, inner: ast.AST) -> Optional[OrderedLoop]:
+    """The innermost in-order loop of ``func`` whose body contains ``inner``."""
+    found: Optional[OrderedLoop] = None
+    for l in ast.walk(func.node):
+        if not isinstance(l, (ast.For, ast.While)) or not any(x is inner for b in l.body for x in ast.walk(b)):
+            continue
+        cand: Optional[OrderedLoop] = None
+        if isinstance(l, ast.For):
+            it, tg = strip_cast(l.iter), l.target
+            if isinstance(it, ast.Call) and norm(it.func) == 'enumerate' and len(it.args) == 1 and isinstance(tg, ast.Tuple) and len(tg.elts) == 2 \
+                    and all(isinstance(x, ast.Name) for x in tg.elts):
+                cand = OrderedLoop(l, it.args[0], tg.elts[1].id, tg.elts[0].id)
+            elif isinstance(it, ast.Call) and norm(it.func) == 'range' and len(it.args) == 1 and isinstance(it.args[0], ast.Call) \
+                    and norm(it.args[0].func) == 'len' and len(it.args[0].args) == 1 and isinstance(tg, ast.Name):
+                cand = OrderedLoop(l, it.args[0].args[0], None, tg.id)
+            elif isinstance(tg, ast.Name) and not isinstance(it, ast.Call):
+                cand = OrderedLoop(l, it, tg.id, None)
+        else:
+            t = strip_cast(l.test)
+            if (isinstance(t, ast.Compare) and len(t.ops) == 1 and isinstance(t.ops[0], ast.Lt) and isinstance(t.left, ast.Name)
+                    and isinstance(t.comparators[0], ast.Call) and norm(t.comparators[0].func) == 'len' and len(t.comparators[0].args) == 1):
+                i = t.left.id
+                stores = [n for n in ast.walk(func.node) if isinstance(n, ast.Name) and n.id == i and isinstance(n.ctx, ast.Store)]
+                inits = [s for st in func.node.body for s in walk_shallow_stmts(st) if isinstance(s, ast.Assign) and len(s.targets) == 1 and norm(s.targets[0]) == i
+                         and isinstance(s.value, ast.Constant) and s.value.value == 0]
+                last = l.body[-1] if l.body else None
+                step = (isinstance(last, ast.AugAssign) and isinstance(last.op, ast.Add) and norm(last.target) == i
+                        and isinstance(last.value, ast.Constant) and last.value.value == 1)
+                no_continue = not any(isinstance(x, ast.Continue) for b in l.body for x in ast.walk(b))
+                if len(inits) == 1 and step and no_continue and len(stores) == 2 and inits[0].lineno < l.lineno:
+                    cand = OrderedLoop(l, t.comparators[0].args[0], None, i)
+        if cand is not None and (found is None or any(x is cand.node for x in ast.walk(found.node))):
+            found = cand
+    return found
